@@ -6,7 +6,7 @@ import sys
 from ..common import b2f, f2b
 from ..gen import gen_tree, infosets_of
 from ..ops import CaseBuilder
-from ..solvers import PRESETS, draws_for, level_tree
+from ..solvers import PRESETS, draws_for, level_tree, alternating_tree
 from .c03 import game_constants, chain_tree, wide_tree
 
 SCOPE = {"solve", "named", "info"}
@@ -32,11 +32,20 @@ def generate(rng, tier, n):
     seed = rng.randrange(1 << 40)
     while len(cases) < n:
         c = rng.random()
-        if c < 0.15:
-            t, st = chain_tree(rng, rng.choice([6, 10]))
+        live = False
+        if c < 0.12:
+            # a matrix game with 3-4 actions per player and (almost surely) a properly mixed equilibrium, solved with
+            # the *production* samplers (no pinned draws): the only place where the crate's own opponent-action
+            # sampler decides whether the solver converges
+            t, st = matrix_game(rng, rng.choice([3, 3, 4]))
+            live = True
         elif c < 0.3:
-            t, st = wide_tree(rng, 8)
+            t, st = alternating_tree(rng, rng.choice([4, 5]), first=rng.choice([1, 2]))
         elif c < 0.4:
+            t, st = chain_tree(rng, rng.choice([6, 10]))
+        elif c < 0.5:
+            t, st = wide_tree(rng, 8)
+        elif c < 0.58:
             t, st = level_tree(rng, [3, 11, rng.choice([12, 20])])
         else:
             t, st = gen_tree(rng, max_nodes=rng.choice([20, 50, 90]), max_depth=rng.choice([4, 6]),
@@ -44,13 +53,14 @@ def generate(rng, tier, n):
         multi, _ = infosets_of(t)
         if len(multi[1]) + len(multi[2]) < 2:
             continue
-        method = rng.choice(["sampled", "external"])
+        method = "external" if live else rng.choice(["sampled", "external"])
         preset = rng.choice(PRESETS)
-        threads = rng.choice([1, 1, 4])
+        threads = rng.choice([1, 2, 2, 4])
         cb = CaseBuilder(cid, t, {"stats": st, "method": method, "preset": preset, "threads": threads})
         cb.meta["stat_runs"] = []
-        for T in TS:
-            s = cb.solve(method, T, 0.0, threads, preset, {"weighted_seed": seed + cid * 7 + T}, kind="solve_long")
+        cb.meta["live"] = live
+        for T in (TS + [40000] if live else TS):
+            s = cb.solve(method, T, 0.0, threads, preset, None if live else {"weighted_seed": seed + cid * 7 + T}, kind="solve_long")
             cb.info(s, kind="info_long")
             cb.meta["stat_runs"].append((T, len(cb.ops) - 2))
         draws = draws_for(rng, t, st, n=211)
@@ -61,6 +71,19 @@ def generate(rng, tier, n):
         cases.append(cb)
         cid += 1
     return cases
+
+
+def matrix_game(rng, k):
+    """player one picks a row, player two (not seeing it) a column; integer payoffs in [-3, 3]"""
+    from ..gen import tree_stats
+    pay = [[float(rng.randint(-3, 3)) for _ in range(k)] for _ in range(k)]
+    # make pure equilibria unlikely: a cyclic dominance component
+    for i in range(k):
+        pay[i][i] = 0.0
+        pay[i][(i + 1) % k] = float(rng.randint(1, 3))
+        pay[(i + 1) % k][i] = -float(rng.randint(1, 3))
+    t = {"p": 1, "i": 1, "a": [[r + 1, {"p": 2, "i": 2, "a": [[c + 1, {"t": f2b(pay[r][c])}] for c in range(k)]}] for r in range(k)]}
+    return t, tree_stats(t)
 
 
 def repeated_chance(t, seen=frozenset()):
@@ -156,12 +179,14 @@ def run(out, rng, tier, args):
         r = keep.get(cb.cid, {})
         if "ops" not in r or cb.meta.get("probe") or repeated_chance(cb.tree):
             continue
+        if cb.meta.get("live"):
+            out.count("live_production_sampler_games")
         D, _, _ = game_constants(cb.tree)
         if D <= 0:
             continue
         for T, k in cb.meta["stat_runs"]:
             info = r["ops"][k + 1]
-            if "ok" in info:
+            if "ok" in info and T in rel:
                 rel[T].append(b2f(info["ok"][3]) / D)
     if all(len(rel[T]) >= 8 for T in TS):
         med = {T: statistics.median(rel[T]) for T in TS}
